@@ -228,8 +228,12 @@ def rule_c06_shapley(prog: Program, col: Collector) -> None:
             oks = s in (("call", ("global", P + "coalitions.Coalition.from_players"), (("list", (pl,)),), ()),
                         ("call", ("global", P + "coalitions.player_to_coalition"), (pl,), ()))
         else:
-            oks = s[0] == "elem" and s[1] == ("call", ("global", "map"), (("global", P + "coalitions.player_to_coalition"),
-                                                                       ("call", ("global", "range"), (nplayers,), ())), ())
+            rng = ("call", ("global", "range"), (nplayers,), ())
+            ptc = ("global", P + "coalitions.player_to_coalition")
+            # for singleton in map(player_to_coalition, range(n))  |  for p in range(n): singleton = player_to_coalition(p)
+            oks = (s[0] == "elem" and s[1][0] == "comp" and len(s[1][3]) == 1 and s[1][3][0][1] == rng and not s[1][3][0][2]
+                   and s[1][2] == ("call", ptc, (s[1][3][0][0],), ())) or \
+                  (s[0] == "call" and s[1] == ptc and len(s[2]) == 1 and s[2][0][0] == "elem" and s[2][0][1] == rng)
         outs = [e.value for e in ft.of_kind("return") if e.value != ("const", None)] + [e.value for e in ft.of_kind("yield")]
         col.check(bool(outs) and all(o == calls[0].term for o in outs), ref.where(calls[0].node), ref.short,
                   "the entry point hands back the worker's result unchanged (no rounding / rescaling on one entry point only)", construct="entry-result",
@@ -381,7 +385,8 @@ def rule_c05_exploitability(prog: Program, col: Collector) -> None:
             if not okpair and is_call_to(body, P + "shapley.compute_shapley_value_for_player") and len(body[2]) == 2:
                 # direct form: shapley(p, MaxGainGame(game, p)) for p in range(n)
                 pterm, gterm = body[2]
-                okpair = gterm == ("call", ("global", P + "exploitability.MaxGainGame"), (gp, pterm), ()) and pterm == el
+                want_game = ("call", ("global", P + "exploitability.MaxGainGame"), (gp, el), ())
+                okpair = gterm == want_game and pterm in (el, ("attr", want_game, "player"))       # g.player is the constructor argument (mgg-init)
                 okplayers = is_call_to(games, "range") and games[2] == (("attr", gp, "number_of_players"),)
                 games = None
             oks = True
